@@ -109,6 +109,10 @@ pub struct Case {
     /// repeat the same kind of transaction this many times (velocity accumulation)
     pub repeats: u8,
     pub via_approver: bool,
+    /// with via_approver: the approver approves unknown destinations (what an operator's explicit
+    /// approval does); everything but the unknown-destination rule must then still hold
+    #[serde(default)]
+    pub approving: bool,
     pub big_tx: bool,
     /// retry storm: after `gap_after` repeats the clock moves on by 65 minutes (one bucket of the
     /// daily control) and the same transaction is retried `extra` more times without any further
@@ -1051,12 +1055,12 @@ impl Prop for C08 {
             prop::bool::weighted(0.3),
             prop::bool::weighted(0.03),
             prop_oneof![9 => Just(None), 1 => (1u8..4, 24u8..32).prop_map(Some)],
-            (prop_oneof![3 => Just(0u8), 1 => Just(1u8), 1 => Just(2u8)], prop_oneof![5 => Just(0u8), 2 => 1u8..7], prop_oneof![7 => Just(None), 2 => wire_strat().prop_map(Some)], prop::bool::weighted(0.4), prop_oneof![19 => Just(None), 1 => (0u8..3, 0u8..4, 0u8..3).prop_map(Some)]),
+            (prop_oneof![3 => Just(0u8), 1 => Just(1u8), 1 => Just(2u8)], prop_oneof![5 => Just(0u8), 2 => 1u8..7], prop_oneof![7 => Just(None), 2 => wire_strat().prop_map(Some)], prop::bool::weighted(0.4), prop_oneof![19 => Just(None), 1 => (0u8..3, 0u8..4, 0u8..3).prop_map(Some)], any::<bool>()),
         )
-            .prop_map(|(version, inputs, outputs, chans, fee, fee_velocity_sat, max_feerate, repeats, via_approver, big_tx, storm, (restart_before, allow_edit, wire, onchain, startup))| {
+            .prop_map(|(version, inputs, outputs, chans, fee, fee_velocity_sat, max_feerate, repeats, via_approver, big_tx, storm, (restart_before, allow_edit, wire, onchain, startup, approving))| {
                 // a storm is only interesting with a finite fee velocity limit
                 let fee_velocity_sat = if storm.is_some() { fee_velocity_sat.or(Some(2500)) } else { fee_velocity_sat };
-                Case { version, inputs, outputs, chans, fee, fee_velocity_sat, max_feerate, repeats, via_approver, big_tx, storm, restart_before, allow_edit, onchain: onchain && wire.is_none(), wire, startup }
+                Case { approving: approving && via_approver, version, inputs, outputs, chans, fee, fee_velocity_sat, max_feerate, repeats, via_approver, big_tx, storm, restart_before, allow_edit, onchain: onchain && wire.is_none(), wire, startup }
             })
             .boxed()
     }
@@ -1334,7 +1338,12 @@ impl Prop for C08 {
             let node = w.node.clone();
             let (txc, flagsc, prevc, uckc, opc) = (tx.clone(), flags.clone(), prev_outs.clone(), ucks.clone(), final_opaths.clone());
             let (accepted, unknown_idx, res_tag, err_msg): (bool, Option<Vec<usize>>, &'static str, String) = if case.via_approver {
-                let r = call(move || NegativeApprover().handle_proposed_onchain(&node, &txc, &flagsc, &prevc, &uckc, &opc));
+                let approving = case.approving;
+                let r = call(move || if approving {
+                    vls_protocol_signer::approver::PositiveApprover().handle_proposed_onchain(&node, &txc, &flagsc, &prevc, &uckc, &opc)
+                } else {
+                    NegativeApprover().handle_proposed_onchain(&node, &txc, &flagsc, &prevc, &uckc, &opc)
+                });
                 match r {
                     Out::Ok(true) => (true, None, "ok", String::new()),
                     Out::Ok(false) => (false, None, "declined", String::new()),
@@ -1352,7 +1361,7 @@ impl Prop for C08 {
                     Err(_) => (false, None, "panic", "panic".into()),
                 }
             };
-            st.class(format!("{}:{}", if case.via_approver { "approver" } else { "check" }, res_tag));
+            st.class(format!("{}:{}", if case.approving { "approving-approver" } else if case.via_approver { "approver" } else { "check" }, res_tag));
             if std::env::var("VERIF_ERRCLASS").is_ok() && !err_msg.is_empty() {
                 st.class(format!("E:{}", short_err(&err_msg)));
             }
@@ -1386,6 +1395,26 @@ impl Prop for C08 {
             let mut bad: Vec<&'static str> = vec![];
             if case.version != 2 {
                 bad.push("version");
+            }
+            if case.approving && facts.iter().any(|f| f.unknown && !f.is_channel) {
+                // the operator's approver accepted the unknown destinations: the value that goes
+                // to them is the operator's decision (no fee bound is applied by the signer then);
+                // what a funded channel requires is not the approver's to waive
+                st.class("approved-unknown-destinations");
+                if n_chan_out > 0 && !flags.iter().all(|f| *f) {
+                    bad.push("non-segwit-input-with-channel-funding");
+                }
+                if facts.iter().any(|f| f.is_channel && f.beneficial_value.is_none()) {
+                    bad.push("invalid-channel-funding-output-accepted");
+                }
+                if let Some(b) = bad.first() {
+                    return ctx.report(st, Violation::new(
+                        format!("C08:approved-unknown-destinations:accepted:{}", b),
+                        format!("accepted (unknown destinations approved by the operator's approver) although {:?}; case={:?}", bad, case),
+                    ));
+                }
+                st.nontrivial_shape(("approved-unknown", classes.clone(), n_chan_out));
+                continue;
             }
             if tx.base_size() > 32 * 1024 {
                 bad.push("size");
